@@ -52,6 +52,13 @@ def on_crash(prop, spec, tier, seed, e):
       violation for every property, signature `<ID>/panic-outside-case`;
     * death by signal / abort is a violation only for the memory-safety properties (C16, C17) and
       INCONCLUSIVE for the others."""
+    if e.rc == 3 and "NO-PROGRESS" in (e.tail or ""):
+        # the monitor's own heartbeat watchdog: no evaluation finished for 300 s = one call of the code under test does not
+        # return (five to six orders of magnitude beyond what a call takes; not a wall-clock budget for the run)
+        v = C.Verdict(prop, tier, seed, spec["level"], spec["rule"], spec["assumptions"], spec["technique"])
+        v.evaluations, v.distinct_extra = 1, 2
+        v.add_violation(f"{prop}/call-does-not-return", str(e), "native")
+        return v.finish()
     if e.rc == 101 or spec.get("crash_is_violation"):
         v = C.Verdict(prop, tier, seed, spec["level"], spec["rule"], spec["assumptions"], spec["technique"])
         v.evaluations, v.distinct_extra = 1, 2
